@@ -786,6 +786,41 @@ func (e *Eval) atClauses(fr *Frame, cc *ssa.CallCommon, name, site, kind string,
 	}
 }
 
+// atClosure: `at closure:<fn> requires ...` clauses of the function under
+// verification are checked where the closure is created, with the captured
+// variables bound by their source names.
+func (e *Eval) atClosure(fr *Frame, x *ssa.MakeClosure, binds []Val, st *State, cur string) {
+	if e.rootC == nil || fr != e.root {
+		return
+	}
+	fn := x.Fn.(*ssa.Function)
+	name := "closure:" + relName(fn)
+	for _, at := range e.rootC.At {
+		if at.Kind != "requires" || !calleeMatches(at.Callee, name) {
+			continue
+		}
+		ex, err := at.Clause.Parse()
+		if err != nil {
+			e.c.Unsupported("%v", err)
+			continue
+		}
+		env := e.newEnv(e.rootPkg, st, e.entry)
+		e.bindParams(env, e.root)
+		e.bindCells(env, e.root)
+		for i, fv := range fn.FreeVars {
+			if i < len(binds) {
+				env.bind(fv.Name(), binds[i], fv.Type())
+			}
+		}
+		g := env.evalGoal(ex)
+		lbl := at.Clause.Label
+		if lbl == "" {
+			lbl = "at"
+		}
+		e.oblige(fmt.Sprintf("closure@%s/%s", e.site(relName(fn)), lbl), "callsite", at.Clause.Props, cur, g, at.Clause.Text, at.Clause.Where)
+	}
+}
+
 func calleeMatches(pat, name string) bool {
 	if pat == name {
 		return true
@@ -835,6 +870,27 @@ func (e *Eval) applyGhost(k *Contract, env *Env, post, pre *State, cur, site str
 				continue
 			}
 		}
+		// gm $name <key expr> = <int expr>   ghost map (Int -> Int) update
+		if len(f) >= 5 && f[0] == "gm" {
+			rest := strings.TrimSpace(strings.TrimSpace(g[2:])[len(f[1]):])
+			eqi := strings.LastIndex(rest, " = ")
+			if eqi > 0 {
+				kx, err1 := ParseSpecExpr(strings.TrimSpace(rest[:eqi]))
+				vx, err2 := ParseSpecExpr(strings.TrimSpace(rest[eqi+3:]))
+				if err1 == nil && err2 == nil {
+					env.st = post
+					comp := "$gm." + strings.TrimPrefix(f[1], "$")
+					e.c.DeclComp(comp, "(Array Int Int)")
+					kv := env.eval(kx)
+					vv := env.eval(vx)
+					if vv.Ty == nil {
+						vv = env.coerce(vv, ghostIntType)
+					}
+					e.c.Set(post, comp, sto(e.c.Get(post, comp), kv.T, vv.T))
+					continue
+				}
+			}
+		}
 		// set $name:type = expr   (expr over the post state and the results)
 		if len(f) >= 4 && f[0] == "set" {
 			rest := strings.TrimSpace(g[3:])
@@ -874,6 +930,10 @@ func (e *Eval) declGhost(name string) {
 	case "$wr", "$rd":
 		e.c.DeclComp(name, "(Array Int BSeq)")
 	default:
+		if strings.HasPrefix(name, "$gm.") {
+			e.c.DeclComp(name, "(Array Int Int)")
+			return
+		}
 		if gv, ok := e.p.cs.GhostVars[name]; ok {
 			env := e.newEnv(e.p.pkgs[gv[1]], e.entry, e.entry)
 			if t := env.lookupType(gv[0]); t != nil {
